@@ -19,7 +19,7 @@ type C03Case struct {
 	Meta   map[string]string `json:"meta,omitempty"`
 }
 
-func c03Src(c *C03Case) string { return Canon(c.File) }
+func c03Src(c *C03Case) string { return CanonMaybeDense(c.File) }
 
 func findSwitches(b *Block, out *[]*Switch) {
 	walkBlocks(b, func(bb *Block) {
